@@ -18,6 +18,7 @@
 #include <vector>
 
 #include <tao/pegtl.hpp>
+#include <tao/pegtl/buffer_input.hpp>
 #include <tao/pegtl/contrib/coverage.hpp>
 #include <tao/pegtl/contrib/state_control.hpp>
 
@@ -138,6 +139,39 @@ struct mi_errors
 };
 template< typename Rule > using mi_control = must_if< mi_errors, normal, false >::control< Rule >;
 
+// ---------------------------------------------------------------- a user control with unwind() that keeps its OWN log
+// (wrapped by state_control: it must see start / exactly one closing hook for exactly the rules that are control-enabled)
+static std::vector< ev > g_uw;
+template< typename Rule >
+struct uw_control : normal< Rule >
+{
+   template< typename In, typename... St > static void start( const In&, St&&... ) { g_uw.push_back( { 'S', demangle< Rule >() } ); }
+   template< typename In, typename... St > static void success( const In&, St&&... ) { g_uw.push_back( { 'O', demangle< Rule >() } ); }
+   template< typename In, typename... St > static void failure( const In&, St&&... ) { g_uw.push_back( { 'F', demangle< Rule >() } ); }
+   template< typename In, typename... St > static void unwind( const In&, St&&... ) { g_uw.push_back( { 'U', demangle< Rule >() } ); }
+};
+namespace g7
+{
+   struct N : seq< one< 'a' >, one< 'b' > > {};
+   struct G : seq< opt< N >, must< one< 'c' >, one< 'a' > >, star< any > > {};      // must< A, B > = hidden internal::must< A >, internal::must< B >
+}
+
+// one byte per call
+struct byte_reader
+{
+   const char* p;
+   const char* e;
+   byte_reader( const char* b, const char* en ) : p( b ), e( en ) {}
+   std::size_t operator()( char* buffer, const std::size_t length )
+   {
+      if( ( p == e ) || ( length == 0 ) ) {
+         return 0;
+      }
+      buffer[ 0 ] = *p++;
+      return 1;
+   }
+};
+
 // ---------------------------------------------------------------- checks
 static unsigned long n_cases = 0, n_events = 0, n_viol = 0;
 
@@ -171,6 +205,27 @@ static std::string show( const std::vector< ev >& log )
       }
    }
    return s;
+}
+
+// "" if the log is a Dyck word over start / success|failure|unwind with nothing left open, else what is wrong
+static std::string dyck( const std::vector< ev >& log )
+{
+   std::vector< std::string_view > st;
+   for( const auto& e : log ) {
+      if( e.k == 'S' ) {
+         st.push_back( e.rule );
+      }
+      else if( e.k == 'O' || e.k == 'F' || e.k == 'U' ) {
+         if( st.empty() || st.back() != e.rule ) {
+            return std::string( "closing hook " ) + e.k + " without a matching open start";
+         }
+         st.pop_back();
+      }
+   }
+   if( !st.empty() ) {
+      return std::to_string( st.size() ) + " attempts left without success/failure/unwind";
+   }
+   return "";
 }
 
 // result: 1 true, 0 false, 2 exception
@@ -326,11 +381,51 @@ static void one_case( const int g, const int c, const std::string& s )
          viol( "dtor", g, c, s, "a parse started from a destructor during stack unwinding sees different hooks: " + show( log2 ) + " instead of " + show( log ) );
       }
    }
+   // P6 the same grammar through a buffer_input that is too small (maximum 2, Chunk 1, one byte per read, nothing discarded):
+   //    std::overflow_error is thrown from INSIDE an atomic rule (in.size() / require()); the observer must still see every
+   //    started attempt closed, the innermost one by unwind
+   {
+      obs o;
+      bool threw = false;
+      try {
+         buffer_input< byte_reader, eol::lf_crlf, std::string, 1 > in( "c08", 2, s.data(), s.data() + s.size() );
+         (void)parse< G, Act, state_control< Ctl >::template type >( in, o );
+      }
+      catch( const std::exception& ) {
+         threw = true;
+      }
+      n_events += o.log.size();
+      const std::string why = dyck( o.log );
+      if( !why.empty() ) {
+         viol( "buffer", g, c, s, std::string( threw ? "overflow_error out of an atomic rule: " : "small buffer: " ) + why + ": " + show( o.log ) );
+      }
+   }
+}
+
+// P7 a user control WITH unwind() wrapped by state_control: its own log is a Dyck word as well (in particular no unwind for a
+//    rule it never saw start, e.g. the hidden internal::must< R > below must< A, B >)
+template< typename G >
+static void wrapped_unwind( const int g, const std::string& s )
+{
+   ++n_cases;
+   g_uw.clear();
+   std::vector< ev > log;
+   (void)run_observed< G, act_none, uw_control >( s, log );
+   n_events += g_uw.size();
+   const std::string why = dyck( g_uw );
+   if( !why.empty() ) {
+      viol( "wrapped", g, 4, s, "log of the control wrapped by state_control: " + why + ": " + show( g_uw ) );
+   }
+   const std::string why2 = dyck( log );
+   if( !why2.empty() ) {
+      viol( "wrapped", g, 4, s, "observer log with a wrapped control that has unwind(): " + why2 + ": " + show( log ) );
+   }
 }
 
 template< typename G >
 static void all_cfgs( const int g, const std::string& s )
 {
+   wrapped_unwind< G >( g, s );
    one_case< G, act_none, normal >( g, 0, s );
    one_case< G, act_veto, normal >( g, 1, s );
    one_case< G, act_void, mi_control >( g, 2, s );
@@ -360,6 +455,7 @@ int main( int argc, char** argv )
       all_cfgs< g4::G >( 4, s );
       all_cfgs< g5::G >( 5, s );
       all_cfgs< g6::G >( 6, s );
+      all_cfgs< g7::G >( 7, s );
    }
    std::printf( "DONE %lu %lu %lu\n", n_cases, n_events, n_viol );
    return 0;
